@@ -149,6 +149,13 @@ def render(s):
     if k == 'bcall':
         args = ([s[2]] if s[2] else []) + [R(a) for a in s[3:]]
         return '%s(%s)' % (s[1], ', '.join(args))
+    if k == 'tcall':
+        args = [R(a) for a in s[3:]]
+        if s[2] == 'call':
+            return '%s(%s)' % (s[1], ', '.join(args))
+        if s[2] == 'meth':
+            return '(%s).%s(%s)' % (args[0], s[1], ', '.join(args[1:]))
+        return ('(%s) | %s(%s)' % (args[0], s[1], ', '.join(args[1:]))) if len(args) > 1 else '(%s) | %s' % (args[0], s[1])
     if k == 'list':
         return '[%s]' % ', '.join(R(a) for a in s[1:])
     if k == 'dict':
@@ -212,6 +219,12 @@ def r5(s, env):
         return [r5(a, env) for a in s[1:]]
     if k == 'lam':
         return [r5(s[1], env), r5(s[2], env)]
+    if k == 'tcall':
+        # ANY entry of the function table (whatever it does): every argument is evaluated once, in order, before the entry is applied; the outcome itself
+        # is not pinned here (value-vs-error differences of the operation are C07's business)
+        for a in s[3:]:
+            r5(a, env)
+        raise OpError('table entry %s: outcome not modelled' % s[1])
     if k == 'bcall':
         # a builtin: every argument is evaluated, in order, before the builtin is applied (R2's own implementation gives the outcome)
         from lib import refeval
@@ -367,6 +380,8 @@ def setup(ctx):
     ctx.P = SqParser()
     ctx.PC = SqParser(parse_cache={})     # half of the shapes are evaluated on a caching parser: the same tree is re-evaluated under every assignment
     ctx.templates = arity_templates()
+    from smartquery import functions as _functions
+    ctx.table_names = sorted(_functions.FUNCTIONS)
     ctx.log = []
 
     def t(i):
@@ -423,6 +438,21 @@ def cases(ctx):
             if n % ctx.nshards == ctx.shard:
                 yield ('shape', s, k, ctx.rnd.getrandbits(32))
             n += 1
+    for sh in table_call_shapes(ctx):
+        cnt = [0]
+        s = number(sh, cnt)
+        if n % ctx.nshards == ctx.shard:
+            yield ('shape', s, cnt[0], ctx.rnd.getrandbits(32))
+        n += 1
+
+
+def table_call_shapes(ctx):
+    """every entry of the function table of the tree under test, called with 1-3 probes in call / method / pipe spelling"""
+    P = ('P',)
+    for name in ctx.table_names:
+        for k in (1, 2, 3):
+            for form in ('call', 'meth', 'pipe'):
+                yield ('tcall', name, form) + (P,) * k
 
 
 def host(ctx, mode):
